@@ -49,6 +49,8 @@ function vmut(n, a, b) return ops(n, a, b) end
 function vmut_p(n, a, b) local ok, e = pcall(ops, n, a, b) return ok end
 function vcall(other, n, a, b) return contract.call(other, "mut", n, a, b) end
 function vnest(n, a, b) return vmut(n, a, b) end
+function vafc(other, n, a, b) pcall(contract.call, other, "mut", "nosuchop") return ops(n, a, b) end
+function vafcp(other, n, a, b) contract.pcall(contract.call, other, "mut", "nosuchop") return ops(n, a, b) end
 function callsview(n, a, b) return vmut(n, a, b) end
 function read() return v:get() end
 function noop() end
@@ -56,7 +58,7 @@ function default() end
 function check_delegation(fname, n, a, b) local ok = pcall(ops, n, a, b) return not ok end
 function fd(n, a, b) end
 abi.register(mut, noop, fd, callsview)
-abi.register_view(vmut, vmut_p, vcall, vnest, read)
+abi.register_view(vmut, vmut_p, vcall, vnest, vafc, vafcp, read)
 abi.payable(default, noop, constructor)
 abi.fee_delegation(fd)
 `
@@ -111,7 +113,7 @@ func main() {
 		go func(v int) { defer wg.Done(); run(c, v, eps) }(v)
 	}
 	wg.Wait()
-	c.Finish("contracts deployed by real DEPLOY txs expose every mutating host operation (state variable set/delete, raw setItem, send, call with value, call/delegatecall into a mutating function, deploy, event, stake/unstake/vote/voteDao, pcall recovery points) plus a generic call of EVERY entry point found in the luaL_Reg tables of contract/*_module.c at check time; each is invoked in the three read-only contexts through the real paths (client query; CALL tx to a function registered as view, also nested, through pcall and through contract.call into another contract; fee-delegation check by message and by FEEDELEGATION tx). Monitors: the operation is refused with an error, the full state dump (all accounts, storage, code) and the state root are unchanged (tx cases: only fee+nonce of the carrying tx). Positive control: the same operation in an ordinary CALL changes the dump; a case is deciding only then. A case = (operation, context); distinct = hash(version, operation, context)",
+	c.Finish("contracts deployed by real DEPLOY txs expose every mutating host operation (state variable set/delete, raw setItem, send, call with value, call/delegatecall into a mutating function, deploy, event, stake/unstake/vote/voteDao, pcall recovery points) plus a generic call of EVERY entry point found in the luaL_Reg tables of contract/*_module.c at check time; each is invoked in the three read-only contexts through the real paths (client query; CALL tx to a function registered as view, also nested, through pcall, through contract.call into another contract, and after a failed nested call whose error was caught; fee-delegation check by message and by FEEDELEGATION tx). Monitors: the operation is refused with an error, the full state dump (all accounts, storage, code) and the state root are unchanged (tx cases: only fee+nonce of the carrying tx). Positive control: the same operation in an ordinary CALL changes the dump; a case is deciding only then. A case = (operation, context); distinct = hash(version, operation, context)",
 		c.Pick(40, 120),
 		"contracts run on the PUC-Lua shim VM with a re-implemented abi wrapper; the real luaViewStart/End and all Go/C host callbacks are exercised",
 		"the db module (SQL) cannot run without LiteTree: its view guard is not covered")
@@ -259,6 +261,24 @@ func run(c *vf.Ctx, ver int, eps map[string][]string) {
 		{"view-tx:call-into-other-contract", func(op string, a interface{}) (bool, string, []string, bool) {
 			st, ret, bad, ok := viaTx(types.TxType_CALL, M, call("vcall", types.EncodeAddress(O), op, a), user.Addr)
 			return st == "ERROR" || st == "skipped", st + " " + ret, bad, ok
+		}},
+		{"view-tx:after-failed-nested-call", func(op string, a interface{}) (bool, string, []string, bool) {
+			// the view first calls another contract, the callee fails, the error is caught (the host rolls back
+			// to its recovery point), then the view tries the operation
+			st, ret, bad, ok := viaTx(types.TxType_CALL, M, call("vafc", types.EncodeAddress(O), op, a), user.Addr)
+			return st == "ERROR" || st == "skipped", st + " " + ret, bad, ok
+		}},
+		{"view-tx:after-failed-nested-call-contract.pcall", func(op string, a interface{}) (bool, string, []string, bool) {
+			st, ret, bad, ok := viaTx(types.TxType_CALL, M, call("vafcp", types.EncodeAddress(O), op, a), user.Addr)
+			return st == "ERROR" || st == "skipped", st + " " + ret, bad, ok
+		}},
+		{"query:after-failed-nested-call", func(op string, a interface{}) (bool, string, []string, bool) {
+			d0 := dump()
+			q, err := n.Query(M, call("vafc", types.EncodeAddress(O), op, a))
+			if err != nil {
+				return false, err.Error(), nil, false
+			}
+			return q.Err != "", q.Err + string(q.Result), rig.Diff(d0, dump()), true
 		}},
 		{"feedelegation:check-message", func(op string, a interface{}) (bool, string, []string, bool) {
 			d0 := dump()
